@@ -238,7 +238,23 @@ func (im *impl) checkAPI(snap *te.VerifSnap, step int, tags string, out *[]findi
 				got := expandLine(sl, false)
 				want := sub(full, x, n)
 				if rowString(got) != rowString(want) {
-					subFinding("api-subrange", fmt.Sprintf("row %d: StyledLine(%d,%d,%d) shows %s, the cells are %s", y, x, n, y, rowString(got), rowString(want)))
+					detail := fmt.Sprintf("row %d: StyledLine(%d,%d,%d) shows %s, the cells are %s", y, x, n, y, rowString(got), rowString(want))
+					subFinding("api-subrange", detail)
+					// the same characters with other attributes: a cell does not report the style it was written with
+					if len(got) == len(want) {
+						attrOnly := true
+						for k := range got {
+							g, w := got[k], want[k]
+							g.sty, w.sty = [3]uint32{}, [3]uint32{}
+							if g != w {
+								attrOnly = false
+								break
+							}
+						}
+						if attrOnly {
+							add("C07", "api-subrange", detail)
+						}
+					}
 					break
 				}
 			}
